@@ -267,6 +267,16 @@ type AlonzoTransactionBody struct {
 	NetworkId               uint8                                         `cbor:"15,keyasint,omitempty"`
 }
 
+// MarshalCBOR returns the stored CBOR of a decoded AlonzoTransactionBody so that
+// re-serialising it reproduces the wire bytes; an object built in memory is
+// encoded from its fields
+func (x *AlonzoTransactionBody) MarshalCBOR() ([]byte, error) {
+	if x.Cbor() != nil {
+		return x.Cbor(), nil
+	}
+	return cbor.EncodeGeneric(x)
+}
+
 func (b *AlonzoTransactionBody) UnmarshalCBOR(cborData []byte) error {
 	type tAlonzoTransactionBody AlonzoTransactionBody
 	var tmp tAlonzoTransactionBody
@@ -711,6 +721,16 @@ type AlonzoTransactionWitnessSet struct {
 	WsPlutusV1Scripts  []common.PlutusV1Script   `cbor:"3,keyasint,omitempty"`
 	WsPlutusData       PlutusDataList            `cbor:"4,keyasint,omitempty"`
 	WsRedeemers        AlonzoRedeemers           `cbor:"5,keyasint,omitempty"`
+}
+
+// MarshalCBOR returns the stored CBOR of a decoded AlonzoTransactionWitnessSet so that
+// re-serialising it reproduces the wire bytes; an object built in memory is
+// encoded from its fields
+func (x *AlonzoTransactionWitnessSet) MarshalCBOR() ([]byte, error) {
+	if x.Cbor() != nil {
+		return x.Cbor(), nil
+	}
+	return cbor.EncodeGeneric(x)
 }
 
 func (w *AlonzoTransactionWitnessSet) UnmarshalCBOR(cborData []byte) error {
